@@ -112,6 +112,22 @@ def step (p : Prog) (s : St) (t : Tid) (c : Bool) : Option St :=
   | some r => exec r.instr s t c
   | none => none
 
+/-- **Every way control can leave the guarded user function.**  Go runs the deferred calls of the frame (and of
+every frame below it) for a normal return, for a panic with ANY value (a string, an error value such as
+`http.ErrAbortHandler`, a runtime error) and for `runtime.Goexit` (then `recover()` yields nil and the goroutine
+ends after the deferred calls).  In the IR the three abnormal kinds are the environment choice `true` of the
+`user onPanic` row: control continues at the deferred code. -/
+inductive ExitKind where
+  | ret | panicValue | panicError | goexit
+  deriving Repr, DecidableEq
+
+def ExitKind.choice : ExitKind → Bool
+  | .ret => false
+  | _ => true
+
+/-- the skeleton token of the statement that writes a panic report (`rescue.Recover`, after its clean-ups). -/
+def reportTag : String := "call rescue.Recover"
+
 /-- permit annotation of a row index (false outside the table). -/
 def H (p : Prog) (q : Nat) : Bool :=
   match p[q]? with
@@ -339,6 +355,23 @@ def maxConnsNoDefer : Prog := [
   ⟨["call latch.Return"], .tryRelease, true, false⟩,
   ⟨["}"], .goto 5, false, false⟩,
   ⟨["else{", "call w.WriteHeader", "}"], .nop, false, false⟩,
+  ⟨[], .halt, false, false⟩ ]
+
+/-- what `TaskRunner.Schedule` would be with `Done` handed to `rescue.Recover` as the clean-up and the slot given
+back by an OUTER defer (seeded change C05-8): `Done` runs first, the panic report next, the release last. Kept to
+show what `holdsWithinWg` rejects. -/
+def runnerDoneFirst : Prog := [
+  ⟨[], .branch 1 2, false, false⟩,
+  ⟨[], .goto 4, false, false⟩,
+  ⟨["call rp.waitGroup.Wait"], .wgWait, false, false⟩,
+  ⟨[], .goto 11, false, false⟩,
+  ⟨["call rp.waitGroup.Add"], .wgAdd, false, false⟩,
+  ⟨["send rp.limitChan"], .acquire, false, true⟩,
+  ⟨["go{", "call rp.run", "}"], .nop, true, true⟩,
+  ⟨["call task"], .user 8, true, true⟩,
+  ⟨["call rp.waitGroup.Done"], .wgDone, true, true⟩,           -- the clean-up of rescue.Recover
+  ⟨["call rescue.Recover"], .nop, true, false⟩,                -- the panic report: slot still held, Done done
+  ⟨["recv rp.limitChan"], .release, true, false⟩,              -- the outer defer
   ⟨[], .halt, false, false⟩ ]
 
 end Programs
